@@ -788,7 +788,7 @@ PyObject* py_interest_points(PyObject* self, PyObject* args) {
     int max_points;
     float threshold;
     if (!PyArg_ParseTuple(args,"Oiiifi", &array, &nr_octaves, &nr_intervals, &initial_step_size, &threshold, &max_points)) return NULL;
-    if (!PyArray_Check(array) || PyArray_NDIM(array) != 2) {
+    if (!numpy::are_arrays(array) || PyArray_NDIM(array) != 2) {
         PyErr_SetString(PyExc_RuntimeError, TypeErrorMsg);
         return NULL;
     }
@@ -835,7 +835,7 @@ PyObject* py_pyramid(PyObject* self, PyObject* args) {
     int nr_intervals;
     int initial_step_size;
     if (!PyArg_ParseTuple(args,"Oiii", &array, &nr_octaves, &nr_intervals, &initial_step_size)) return NULL;
-    if (!PyArray_Check(array) || PyArray_NDIM(array) != 2) {
+    if (!numpy::are_arrays(array) || PyArray_NDIM(array) != 2) {
         PyErr_SetString(PyExc_RuntimeError, TypeErrorMsg);
         return NULL;
     }
@@ -873,7 +873,7 @@ PyObject* py_pyramid(PyObject* self, PyObject* args) {
 PyObject* py_integral(PyObject* self, PyObject* args) {
     PyArrayObject* array;
     if (!PyArg_ParseTuple(args,"O", &array)) return NULL;
-    if (!PyArray_Check(array) || PyArray_NDIM(array) != 2) {
+    if (!numpy::are_arrays(array) || PyArray_NDIM(array) != 2) {
         PyErr_SetString(PyExc_RuntimeError, TypeErrorMsg);
         return NULL;
     }
@@ -894,7 +894,7 @@ PyObject* py_sum_rect(PyObject* self, PyObject* args) {
     PyArrayObject* array;
     int y0, x0, y1, x1;
     if (!PyArg_ParseTuple(args,"Oiiii", &array, &y0, &x0, &y1, &x1)) return NULL;
-    if (!PyArray_Check(array) || PyArray_NDIM(array) != 2) {
+    if (!numpy::are_arrays(array) || PyArray_NDIM(array) != 2) {
         PyErr_SetString(PyExc_RuntimeError, TypeErrorMsg);
         return NULL;
     }
